@@ -98,6 +98,9 @@ class Interp(object):
             if o.kind in ("list", "set", "dict"):
                 if o.items is not None:
                     return [(st, len(o.items) > 0)]
+                seq = o.fields.get("@seq")
+                if seq is not None and ("#n:" + seq.name) in st.ghost:
+                    return [(st, st.ghost["#n:" + seq.name] != 0)]
                 ln = self.abs_len(st, v)
                 return self.truth(st, ln, node)
             return [(st, True)]
@@ -374,10 +377,14 @@ class Interp(object):
             ast.copy_location(binop, node)
             node._binop = binop
         res = []
+        is_inc1 = (self.track_len and isinstance(node.target, ast.Name) and isinstance(node.op, ast.Add)
+                   and isinstance(node.value, ast.Constant) and node.value.value == 1)
         for (s, k, v) in self.eval(st, binop):
             if k != "val":
                 res.append((s, k, v))
                 continue
+            if is_inc1:
+                s.ghost["#inc"] = s.ghost.get("#inc", ()) + (node.target.id,)
             res.extend(self.assign(s, node.target, v))
         return res
 
@@ -757,6 +764,8 @@ class Interp(object):
             # (b) one more element
             base = head.fork()
             before = {name: base.frames[-1].get(name) for (name, _) in base.ghost.get(track_key, ())}
+            if self.track_len:
+                base.ghost["#inc"] = ()
             for (s0, elem, label) in seq.factory(self, base):
                 s0.note("%s: next %s element: %s" % (self.loc(node), seq.name, label))
                 self.emit(s0, ("iter", id(node), seq.name, elem))
@@ -769,9 +778,12 @@ class Interp(object):
                     for (s2, k2, v2) in self.exec_block(s1, node.body):
                         if k2 in ("next", "continue"):
                             tr = []
+                            incd = s2.ghost.pop("#inc", ())
                             for (name, rel) in s2.ghost.get(track_key, ()):
                                 b, a = before.get(name), s2.frames[-1].get(name)
                                 inc = _is_inc(b, a)
+                                if inc is None and b is GE2 and a is GE2:
+                                    inc = 1 if incd.count(name) == 1 else (0 if incd.count(name) == 0 else None)
                                 if inc == 1:
                                     tr.append((name, rel))
                                 elif inc == 0:
